@@ -53,7 +53,7 @@ def call_wsgi(app, environ):
     return starts, items, exc
 
 
-def call_asgi(app, scope, messages=None, fd_reader=None, alongside=None):
+def call_asgi(app, scope, messages=None, fd_reader=None, alongside=None, other_first=True):
     """returns (list of sent messages, exception or None).  zerocopysend messages are
     turned into {"type": ..., "bytes": what a server would read from the descriptor}.
     alongside: a second scope; the same application object answers it in a concurrent task (every send of
@@ -102,10 +102,16 @@ def call_asgi(app, scope, messages=None, fd_reader=None, alongside=None):
         async def osend(message):
             await asyncio.sleep(0)
 
-        other = asyncio.ensure_future(app(alongside, oreceive, osend))
-        await asyncio.sleep(0)          # the other request is under way first
+        if other_first:
+            other = asyncio.ensure_future(app(alongside, oreceive, osend))
+            await asyncio.sleep(0)          # the other request is under way first
+            main = asyncio.ensure_future(app(scope, receive, send))
+        else:
+            main = asyncio.ensure_future(app(scope, receive, send))
+            await asyncio.sleep(0)          # this request is under way first; the other one catches up at its first await
+            other = asyncio.ensure_future(app(alongside, oreceive, osend))
         try:
-            await app(scope, receive, send)
+            await main
         finally:
             await asyncio.wait([other], timeout=10)
             if not other.done():
